@@ -474,7 +474,115 @@ def rule_j(R, ctx, rid="C16.j"):
     R.floor(rid, "comparisons that read a range bound in yrs/src/ids.rs", n, 30)
 
 
+def _strip(t):
+    t = simp_deep(t)
+    while isinstance(t, tuple) and t and t[0] in ("deref", "ref", "copy") and len(t) > 1 and isinstance(t[-1], tuple):
+        t = simp_deep(t[-1])
+    return t
+
+
+SWEEP_CURSORS = ["yrs::ids::IdRanges::exclude", "yrs::ids::IdRanges::intersect"]
+
+
+def rule_k(R, ctx, rid="C16.k"):
+    Y = ctx.yrs
+    R.rule(rid, "R-SCAN sweep cursor: in IdRanges::exclude / intersect the cursor into the other operand's sorted ranges moves past "
+                "an entry only behind a comparison of that entry's END with the range at hand (entirely to the left: end <= start; "
+                "consumed: end < end of the current range); a hand-over between the two cursors and the initial 0 are the only "
+                "other writes. A jump computed otherwise (a search keyed on `start`) steps over an entry that still overlaps the "
+                "current range, whose clocks then survive the subtraction; a partition_point jump is accepted when its predicate is "
+                "that same end-comparison")
+    for path in SWEEP_CURSORS:
+        fn = Y.fn(path)
+        v = FnView(fn)
+        cursors = set()
+        for i, j, st in fn.stmts():
+            def places(o):
+                if isinstance(o, dict):
+                    if "p" in o and "l" in o:
+                        yield o
+                    for x in o.values():
+                        yield from places(x)
+                elif isinstance(o, list):
+                    for x in o:
+                        yield from places(x)
+            for pl in places(st):
+                for pr in pl.get("p", []):
+                    if isinstance(pr, dict) and "idx" in pr:
+                        r = mir_root(fn, pr["idx"])
+                        if r[0] == "local":
+                            cursors.add(r[1])
+        # cursors handed over to / from an index cursor (i = j) are cursors too
+        grew = True
+        while grew:
+            grew = False
+            for i, j, st in fn.stmts():
+                rv = st["rv"]
+                if isinstance(st["dst"], int) and "use" in rv and isinstance(rv["use"], dict):
+                    r = mir_root(fn, rv["use"])
+                    if r[0] == "local" and fn.local_ty(r[1]) == "usize" and fn.local_ty(st["dst"]) == "usize" \
+                            and len(fn.defs().get(st["dst"], [])) > 1 and len(fn.defs().get(r[1], [])) > 1:
+                        if st["dst"] in cursors and r[1] not in cursors:
+                            cursors.add(r[1]); grew = True
+                        if r[1] in cursors and st["dst"] not in cursors:
+                            cursors.add(st["dst"]); grew = True
+        R.floor(rid, "index cursors in %s" % path, len(cursors), 1)
+        n = 0
+        for i, j, st in fn.stmts():
+            if not isinstance(st["dst"], int) or st["dst"] not in cursors:
+                continue
+            rv = st["rv"]
+            r = mir_root(fn, rv["use"]) if "use" in rv and isinstance(rv["use"], dict) else ("other",)
+            if r[0] == "const":
+                continue
+            if r[0] == "local" and r[1] in cursors and r[1] != st["dst"]:
+                continue   # hand-over i = j / j = i
+            # an advance: the value written is cursor + step
+            n += 1
+            t = simp_deep(v.terms.rvalue(rv, 10))
+            site = "advance@%s#%d" % (fn.local_name(st["dst"]) or st["dst"], n)
+            ends = [l for l in v.guards(i) if isinstance(l.term, tuple) and l.term[0] == "bin" and l.term[1] in ("Le", "Lt", "Ge", "Gt")
+                    and any(x[0] == "field" and x[1].endswith("Range.end") and "[_]" in show(x, 12)
+                            for x in (_strip(l.term[2]), _strip(l.term[3])))]
+            # the step: second operand of the addition that produced the value
+            step = None
+            src = rv["use"].get("m", rv["use"].get("c")) if "use" in rv and isinstance(rv["use"], dict) else None
+            if isinstance(src, dict) and isinstance(src.get("l"), int):
+                ds = fn.defs().get(src["l"], [])
+                if len(ds) == 1 and ds[0][0] == "stmt" and "bin" in ds[0][3]["rv"] and ds[0][3]["rv"]["bin"].startswith("Add"):
+                    step = ds[0][3]["rv"]["b"]
+            elif "bin" in rv and rv["bin"].startswith("Add"):
+                step = rv["b"]
+            if step is None:
+                R.ob(rid, fn, site, False, "the cursor is written with a value that is neither 0, the other cursor, nor cursor + step: %s" % sshow(t))
+                continue
+            stept = simp_deep(v.terms.operand(step, 10))
+            step_call = [] if mir_root(fn, step) == ("const", 1) else \
+                ([x for x in walk(stept) if isinstance(x, tuple) and x and x[0] == "call"] or [("call", "<computed step %s>" % sshow(stept), ())])
+            ok = bool(ends) and not step_call
+            why = "advances one entry behind %s" % ends[0].desc if ok else \
+                "advances with no comparison of the passed entry's end among its guards (%s)" % [l.desc for l in v.guards(i)][-2:]
+            if step_call:
+                pp = [stept] if stept[0] == "call" and F.strip_generics(stept[1]).endswith("::partition_point") else []
+                okp = False
+                if pp:
+                    for x in pp:
+                        clo = [a for a in (simp_deep(y) for y in x[2]) if isinstance(a, tuple) and a and a[0] == "agg" and "{closure" in str(a[1])]
+                        for a in clo:
+                            cf = Y.fns.get(a[1])
+                            if cf is None:
+                                continue
+                            defs = answer_definitions(cf)
+                            okp = bool(defs) and all(d[0] == "bin" and d[1] in ("Le", "Lt") and term_has_field(d[2], "Range.end") for d in defs)
+                ok = okp
+                why = "jumps by a partition_point whose predicate compares the entries' end" if ok else \
+                    "jumps by a computed amount (%s) whose predicate is not a comparison of the entries' END with the range at hand" % sshow(t)
+            R.ob(rid, fn, site, ok, why, "%s:%s" % (fn.f.get("file", ""), st.get("line")) if hasattr(fn, "f") else None)
+        R.floor(rid, "cursor advances in %s" % path, n, 2)
+
+
 def check(ctx, R):
+    R.run("C16.k", rule_k, ctx)
     R.run("C16.a", rule_a, ctx)
     R.run("C16.b", rule_b, ctx)
     R.run("C16.c", rule_c, ctx)
